@@ -107,6 +107,15 @@ struct C09 {
     else if (mode == M_INIT) e.app = 1; else e.app_free = true;
     run("probe: SDO read of 1000h", [&]() { s.rx(Frame::mk(w.req[0], 8, {0x40, 0x00, 0x10, 0x00, 0, 0, 0, 0})); }, e, mode);
   }
+  // a block download: the initiate is answered, the segment that follows is processed silently - and is still an SDO frame: no other service, not the application
+  void probe_sdo_block() {
+    probe_count();
+    Frame init = Frame::mk(w.req[0], 8, {0xC2, 0x00, 0x21, 0x01, 1, 0, 0, 0}), seg = Frame::mk(w.req[0], 8, {0x01, 0x11, 0, 0, 0, 0, 0, 0}), ab = Frame::mk(w.req[0], 8, {0x80, 0x00, 0x21, 0x01, 0, 0, 0x04, 0x05});
+    { Exp e; if (mode == M_PREOP || mode == M_OP) e.tx.push_back(Frame::mk(w.rsp[0], 8, {0xEE, 0x00, 0x21, 0x01, 0xEE, 0xEE, 0xEE, 0xEE})); else if (mode == M_INIT) e.app = 2; else e.app_free = true;
+      run("probe: SDO block download initiate + first segment (not the last one)", [&]() { s.rx(init); s.rx(seg); }, e, mode); }
+    { Exp e; e.tx_free = true; if (mode == M_INIT) e.app = 1; else if (mode != M_PREOP && mode != M_OP) e.app_free = true;
+      run("probe: SDO abort of the block download", [&]() { s.rx(ab); }, e, mode); }
+  }
   void probe_rpdo() {
     Exp e; probe_count();
     uint8_t old = w.content(*rp)[0], nv = (uint8_t)(old + 1);
@@ -206,13 +215,14 @@ void case_random(Ctx &c) {
   int steps = 0;
   while (!c.t.exhausted() && steps < 200) {
     steps++; c.ops++;
-    uint32_t k = c.t.below(34);
+    uint32_t k = c.t.below(35);
     if (c.t.chance(20)) x.inject_send_fault = true;
     if (k == 29 && !c.t.chance(40)) k = 28;                     // node stop ends all checking: keep it rare
     if (k == 30) x.nmt_cmd(c.t.byte(), c.t.coin() ? x.s.nodeid : c.t.byte());
     else if (k == 31) x.probe_hb((uint8_t[]){0, 127, 5, 4, 77}[c.t.below(5)]);
     else if (k == 32) { uint32_t n = 1 + c.t.below(5); for (uint32_t i = 0; i < n; i++) x.tick(); }
     else if (k == 33) x.nmt_cmd((uint8_t[]){1, 2, 128}[c.t.below(3)], c.t.coin() ? 0 : x.s.nodeid);
+    else if (k == 34) x.probe_sdo_block();
     else x.letter(k, c);
   }
   x.finish();
@@ -222,7 +232,7 @@ Registrar reg(Prop{
     "C09",
     "Cases: a node with one SDO server, an event-driven TPDO (random mode: with an inhibit time of 0..5 ticks, so that a postponed transmission can fall due after OPERATIONAL was left) and a synchronous TPDO (random mode also lets the CAN driver refuse the single frame of a step: the frame is lost, nothing else changes), an asynchronous RPDO, a heartbeat consumer entry, SYNC consumer, LSS, EMCY and a heartbeat producer of 1 tick; "
     "operation sequences over a 30-letter alphabet {NMT command {1,2,128,129,130} x {own id, 0}, start/reset to another id, unknown command specifiers, CONmtSetMode x3, CONodeStart, CONmtReset x2, one probe per service "
-    "(SDO read, RPDO frame, SYNC, heartbeat of the monitored node, LSS, unrelated id, EMCY set/clear, TPDO trigger, tick), CONodeStop}: enumerated exhaustively to the depth bound (node id 1) and randomly up to 200 ops with node ids 1..127, random command specifiers/targets and heartbeat states. "
+    "(SDO read, in the random part also an SDO block download whose segment is processed silently, RPDO frame, SYNC, heartbeat of the monitored node, LSS, unrelated id, EMCY set/clear, TPDO trigger, tick), CONodeStop}: enumerated exhaustively to the depth bound (node id 1) and randomly up to 200 ops with node ids 1..127, random command specifiers/targets and heartbeat states. "
     "Oracle: reference CiA 301 slave state machine: mode after every op, exact mode-change and reset-request callback sequences, exactly the expected frames (boot-up once per INIT->PRE-OP entry; SDO answer only in PRE-OP/OP; TPDOs only in OP; EMCY only in PRE-OP/OP; heartbeat with the state byte in PRE-OP/OP/STOPPED; LSS answer always), "
     "RPDO effect only in OP, unclaimed frames handed to the application exactly once (not constrained in STOPPED and after CONodeStop). "
     "Non-trivial: >= 2 mode changes and >= 1 probe in a state other than PRE-OPERATIONAL. Distinct = distinct decoded choice sequence.",
